@@ -38,6 +38,14 @@ def make_policy(desc):
 
 
 def random_policy_desc(rng, steps_hint=1500):
+    d = _random_policy_desc(rng, steps_hint)
+    if rng.random() < 0.35:
+        # the network may deliver one sendall in two segments (e.g. CR now, LF later): session.run_session(segment=…)
+        d['segment'] = rng.randrange(1 << 30)
+    return d
+
+
+def _random_policy_desc(rng, steps_hint=1500):
     r = rng.random()
     if r < 0.3:
         return {'kind': 'random', 'seed': rng.randrange(1 << 30)}
@@ -134,7 +142,7 @@ def stream_events(hex_msgs):
 # ------------------------------------------------------------------ one run, compared
 def run_and_compare(driver, sc, pdesc, workdir, want, model=None, max_steps=400000):
     """want: set of {'completion', 'log', 'streams', 'ops'}.  returns (diffs, result, model)"""
-    r = session.run_session(sc, make_policy(pdesc), workdir, max_steps=max_steps)
+    r = session.run_session(sc, make_policy(pdesc), workdir, max_steps=max_steps, segment=pdesc.get('segment'))
     # status WATCHDOG = a thread that was given the processor did not reach its next synchronisation step (nor its end)
     # within the watchdog time: it spins or blocks in the code under test — reported as a failure to complete
     if model is None:
@@ -275,6 +283,8 @@ def replay(record, want):
     os.makedirs(workdir, exist_ok=True)
     if record.get('schedule'):
         pdesc = {'kind': 'replay', 'schedule': record['schedule']}
+        if isinstance(record.get('policy'), dict) and record['policy'].get('segment') is not None:
+            pdesc['segment'] = record['policy']['segment']
     else:
         pdesc = record['policy']
     try:
